@@ -9,6 +9,8 @@ package main
 // that asked reports undecided.  Nothing of pkg/sftp is executed: the interpreter reads SSA the checker built.
 
 import (
+	"strconv"
+	"strings"
 	"fmt"
 	"go/constant"
 	"go/token"
@@ -34,6 +36,7 @@ const (
 type evObj struct {
 	typ    types.Type
 	fields map[string]evVal
+	global bool // a package-level array or struct: what the initialiser did not set has its zero value
 }
 
 type evVal struct {
@@ -45,6 +48,7 @@ type evVal struct {
 	tup   []evVal
 	fn    *ssa.Function
 	sym   string
+	free  []*evVal // a closure's captured variables (cells of the frame that made it)
 }
 
 func evSymbol(label string) evVal { return evVal{k: evSym, sym: label} }
@@ -110,6 +114,8 @@ type evaluator struct {
 	gscal   map[*ssa.Package]*evObj
 	inited  map[*ssa.Package]bool
 	lenient bool
+	// nextFree: the captured cells of the closure that is about to be run (consumed by run)
+	nextFree []*evVal
 	// opaque, when set, is asked before a statically known callee is entered: it may give the call's value
 	opaque func(callee *ssa.Function, args []evVal) (evVal, bool)
 }
@@ -165,6 +171,13 @@ func (e *evaluator) run(fn *ssa.Function, args []evVal, depth int) evStop {
 		}
 	}
 	cells := map[*ssa.Alloc]*evVal{}
+	freeCells := map[*ssa.FreeVar]*evVal{}
+	for i, fv := range fn.FreeVars {
+		if i < len(e.nextFree) && e.nextFree[i] != nil {
+			freeCells[fv] = e.nextFree[i]
+		}
+	}
+	e.nextFree = nil
 	var get func(v ssa.Value) evVal
 	get = func(v ssa.Value) evVal {
 		switch x := v.(type) {
@@ -248,6 +261,11 @@ func (e *evaluator) run(fn *ssa.Function, args []evVal, depth int) evStop {
 				return e.globalObj(x), ""
 			}
 			return e.globalScalars(x.Pkg), "g:" + x.Name()
+		case *ssa.FreeVar:
+			if c := freeCells[x]; c != nil && c.k == evObject {
+				return c.obj, ""
+			}
+			return nil, ""
 		case *ssa.FieldAddr:
 			base := objectAt(x.X, d+1)
 			st := derefStruct(x.X.Type())
@@ -277,6 +295,12 @@ func (e *evaluator) run(fn *ssa.Function, args []evVal, depth int) evStop {
 		return nil, ""
 	}
 	loadFrom := func(a ssa.Value) evVal {
+		if fv, ok := a.(*ssa.FreeVar); ok {
+			if c := freeCells[fv]; c != nil {
+				return *c
+			}
+			return evVal{}
+		}
 		if al, ok := a.(*ssa.Alloc); ok && !isAggregate(al.Type()) {
 			if c := cells[al]; c != nil {
 				return *c
@@ -296,11 +320,41 @@ func (e *evaluator) run(fn *ssa.Function, args []evVal, depth int) evStop {
 		if pt, ok := a.Type().Underlying().(*types.Pointer); ok && isAggregate(pt.Elem()) {
 			return evVal{k: evObject, obj: objectAt(a, 0)}
 		}
+		// an element of a package-level array that the initialiser left alone (a sparse table of constructors)
+		if o.global && strings.HasPrefix(key, "#") {
+			if arr, ok := o.typ.Underlying().(*types.Array); ok {
+				if i, err := strconv.ParseInt(key[1:], 10, 64); err == nil && i >= 0 && i < arr.Len() {
+					switch t := arr.Elem().Underlying().(type) {
+					case *types.Pointer, *types.Signature, *types.Interface, *types.Slice, *types.Map, *types.Chan:
+						return evVal{k: evNil}
+					case *types.Basic:
+						switch {
+						case t.Info()&types.IsInteger != 0:
+							return evInt(0, arr.Elem())
+						case t.Info()&types.IsBoolean != 0:
+							return evBool(false)
+						case t.Info()&types.IsString != 0:
+							return evVal{k: evConst, c: constant.MakeString(""), t: arr.Elem()}
+						}
+					}
+				}
+			}
+		}
 		return evVal{}
 	}
 	storeTo := func(a ssa.Value, v evVal) {
+		if fv, ok := a.(*ssa.FreeVar); ok {
+			if c := freeCells[fv]; c != nil && !isAggregate(fv.Type()) {
+				*c = v
+				return
+			}
+		}
 		if al, ok := a.(*ssa.Alloc); ok && !isAggregate(al.Type()) {
-			cells[al] = &v
+			if c := cells[al]; c != nil {
+				*c = v // in place: a closure may hold the cell
+			} else {
+				cells[al] = &v
+			}
 			return
 		}
 		o, key := addrOf(a, 0)
@@ -473,8 +527,23 @@ func (e *evaluator) run(fn *ssa.Function, args []evVal, depth int) evStop {
 				env[x] = evVal{k: evObject, obj: &evObj{typ: x.Type(), fields: map[string]evVal{}}}
 			case *ssa.MakeClosure:
 				env[x] = evVal{}
-				if f, ok := x.Fn.(*ssa.Function); ok && len(x.Bindings) == 0 {
-					env[x] = evVal{k: evFunc, fn: f}
+				if f, ok := x.Fn.(*ssa.Function); ok {
+					fv := evVal{k: evFunc, fn: f}
+					for _, b := range x.Bindings {
+						var cell *evVal
+						switch y := b.(type) {
+						case *ssa.Alloc:
+							if cells[y] == nil {
+								z := evVal{}
+								cells[y] = &z
+							}
+							cell = cells[y]
+						case *ssa.FreeVar:
+							cell = freeCells[y]
+						}
+						fv.free = append(fv.free, cell)
+					}
+					env[x] = fv
 				}
 			case *ssa.MakeSlice:
 				// a fresh slice: what is copied into it is remembered (labelOf)
@@ -691,8 +760,23 @@ func (e *evaluator) call(x *ssa.Call, cc *ssa.CallCommon, args []evVal, get func
 		}
 	} else if f := cc.StaticCallee(); f != nil {
 		callee = f
+		if _, isClosure := cc.Value.(*ssa.MakeClosure); isClosure {
+			if fv := get(cc.Value); fv.k == evFunc {
+				e.nextFree = fv.free
+			}
+		}
 	} else if fv := get(cc.Value); fv.k == evFunc {
 		callee = fv.fn
+		e.nextFree = fv.free
+	}
+	free := e.nextFree
+	e.nextFree = nil
+	// constructors of errors never return nil
+	if callee != nil && callee.Pkg != nil && !inModule(callee) {
+		switch callee.Pkg.Pkg.Path() + "." + callee.Name() {
+		case "fmt.Errorf", "errors.New":
+			return evVal{k: evIface}
+		}
 	}
 	if callee != nil && e.opaque != nil {
 		if v, ok := e.opaque(callee, args); ok {
@@ -702,6 +786,7 @@ func (e *evaluator) call(x *ssa.Call, cc *ssa.CallCommon, args []evVal, get func
 	if callee == nil || callee.Blocks == nil || !inModule(callee) {
 		return evVal{}
 	}
+	e.nextFree = free
 	st := e.run(callee, args, depth+1)
 	if debugEval && st.kind != "return" {
 		fmt.Fprintf(os.Stderr, "eval: call %s with %v ended %s: %s\n", callee.Name(), args, st.kind, st.why)
@@ -744,7 +829,7 @@ func (e *evaluator) globalObj(g *ssa.Global) *evObj {
 	default:
 		return nil
 	}
-	o := &evObj{typ: derefType(g.Type()), fields: map[string]evVal{}}
+	o := &evObj{typ: derefType(g.Type()), fields: map[string]evVal{}, global: true}
 	if arr, ok := derefType(g.Type()).Underlying().(*types.Array); ok {
 		o.fields["len"] = evInt(arr.Len(), types.Typ[types.Int])
 	}
